@@ -3,5 +3,5 @@ CONSTANTS
   Big = TRUE
   Tiny = FALSE
   Dev = "none"
-INVARIANTS Total Reflexive AntiSym Transitive TransStrict TypeOrder EqSym EqTrans EqImpliesCmp0 ScalarCmp0ImpliesEq ObjCmp0 WellFormed NonVacuous
+INVARIANTS Total Reflexive AntiSym Transitive TransStrict TypeOrder EqSym EqTrans EqImpliesCmp0 ScalarCmp0ImpliesEq ObjCmp0 LongLexOK WellFormed NonVacuous
 CHECK_DEADLOCK FALSE
